@@ -346,21 +346,22 @@ class Peer:
 
     @staticmethod
     def _replaced_routes(neighbor: 'Neighbor') -> list[Any]:
-        """The configured routes the RIB was last brought in line with.
+        """The configured routes the RIB may hold from the definitions this one replaces.
 
         A definition keeps the one it replaced (`previous`) until its routes have been applied to the
         RIB. One which was replaced in its turn before that (a second reload while the session was
-        down, or while a re-establishment was pending) still holds its own: the RIB reflects the
-        oldest of them, and what the definitions in between removed has to be removed as well.
+        down, or while a re-establishment was pending) still holds its own: the RIB was last brought in
+        line with the oldest of them, and the parser has queued the routes of each of the others since.
+        What any of them holds and the new definition does not has to be removed.
         """
         from exabgp.bgp.neighbor import Neighbor
 
-        oldest = neighbor.previous
-        if oldest is None:
-            return []
-        while isinstance(oldest.previous, Neighbor):
-            oldest = oldest.previous
-        return oldest.routes
+        routes: list[Any] = []
+        older = neighbor.previous
+        while older is not None:
+            routes = list(older.routes) + routes
+            older = older.previous if isinstance(older.previous, Neighbor) else None
+        return routes
 
     def reconfigure(self, restart_neighbor: 'Neighbor' | None = None) -> None:
         # we want to update the route which were in the configuration file
